@@ -30,10 +30,14 @@ defragmentation: every address (all ever touched + probes) returns the same byte
 size estimate of size() equals fixed part + live records, and a bundle is rewritten exactly when the thresholds
 say so; the new files satisfy the invariant again.
 """
+import errno
 import glob
+import io
 import json
 import os
+import shutil
 import struct
+import threading
 from fractions import Fraction
 
 from common import VERIF, blit, llit, olit, zlit
@@ -302,8 +306,11 @@ def rel(coord):
     return (coord[0] % 128, coord[1] % 128)
 
 
-def check_files(ctx, real, replay, when):
-    """Oracle on the real bytes of every bundle.  Returns {key: parsed}."""
+def check_files(ctx, real, replay, when, strict=True, sig_invalid=None):
+    """Oracle on the real bytes of every bundle.  Returns {key: parsed}.
+    strict=False (after an injected write error): only what the property states - every index entry empty or a
+    complete record inside the file whose recorded size matches, live records disjoint; a store that failed after
+    appending leaves the header size fields behind, which is not a structural defect of the index."""
     v = real.version
     out = {}
     for key, base in sorted(bundle_files(real.dir).items()):
@@ -314,7 +321,7 @@ def check_files(ctx, real, replay, when):
             out[key] = {'raw': raw, 'live': live}
         else:
             idx, dat = read_bytes(base + '.bundlx'), view(base + '.bundle')
-            if dat is None:
+            if dat is None or (idx is None and not strict):
                 # remove_tile on a bundle that was never written creates the index only; the data file
                 # appears with the first read.  Nothing to check yet.
                 out[key] = {'idx': idx, 'dat': None, 'live': {}, 'offs': {}}
@@ -322,9 +329,9 @@ def check_files(ctx, real, replay, when):
             offs, live, bad, hdr = inv_v1(idx, dat, c, r)
             out[key] = {'idx': idx, 'dat': dat, 'live': live, 'offs': offs}
         if bad:
-            ctx.fail('v%d,invalid-bundle' % v, '%s: bundle %r: %s' % (when, key, '; '.join(bad[:3])),
+            ctx.fail(sig_invalid or 'v%d,invalid-bundle' % v, '%s: bundle %r: %s' % (when, key, '; '.join(bad[:3])),
                      dict(replay, when=when, bundle=list(key), problems=bad[:10]))
-        if hdr:
+        if hdr and strict:
             ctx.fail('v%d,header-accounting' % v, '%s: bundle %r: %s' % (when, key, '; '.join(hdr[:3])),
                      dict(replay, when=when, bundle=list(key), problems=hdr[:10]))
     return out
@@ -443,6 +450,440 @@ def make_sparse(cache_dir, key, n):
     with open(path, 'r+b') as f:
         f.seek(24)
         f.write(struct.pack('<Q', n))
+
+
+# ------------------------------------------------------------------------------------- write errors
+
+class Injector(object):
+    """Makes the k-th raw write(2) of the code under test fail.  Raw = below Python's buffer layer, counted over
+    every file the compact cache code opens for writing (bundle, index, the temp file of write_atomic).
+      once: the k-th raw write raises ENOSPC, nothing of it is written; later writes succeed (also the retry that
+            BufferedRandom.close() makes);
+      full: the disk is full from the k-th raw write on: every write that would extend a file raises ENOSPC
+            (nothing written), writes inside existing files succeed;
+      torn: as full, but the first failing write, if it is a pure append, leaves a prefix of its bytes behind.
+    In-place index/header writes are never torn (assumption A1 of DESIGN.md section 4; what tearing them does is
+    property C06)."""
+
+    def __init__(self):
+        self.count = 0
+        self.k = None
+        self.mode = None
+        self.cut = 0
+        self.tripped = False
+
+    def arm(self, k, mode, cut=0):
+        self.count, self.k, self.mode, self.cut, self.tripped = 0, k, mode, cut, False
+
+    def disarm(self):
+        self.k = None
+
+    def write(self, raw, b):
+        b = bytes(b)
+        i = self.count
+        self.count += 1
+        if self.k is not None and i >= self.k:
+            pos = raw.tell()
+            size = os.fstat(raw.fileno()).st_size
+            if self.mode == 'once':
+                if i == self.k:
+                    self.tripped = True
+                    raise OSError(errno.ENOSPC, 'injected write error')
+            elif pos + len(b) > size:
+                if not self.tripped and self.mode == 'torn' and pos >= size and len(b) > 1:
+                    io.FileIO.write(raw, b[:max(1, min(self.cut, len(b) - 1))])
+                self.tripped = True
+                raise OSError(errno.ENOSPC, 'injected: no space left on device')
+        return io.FileIO.write(raw, b)
+
+
+class _FRaw(io.FileIO):
+    def __init__(self, inj, name, mode, **kw):
+        io.FileIO.__init__(self, name, mode, **kw)
+        self._inj = inj
+
+    def write(self, b):
+        return self._inj.write(self, b)
+
+
+class _FsOs(object):
+    """`os` of mapproxy.util.fs with fdopen returning a buffered file over an injecting raw file."""
+
+    def __init__(self, inj):
+        object.__setattr__(self, '_inj', inj)
+
+    def __getattr__(self, name):
+        return getattr(os, name)
+
+    def fdopen(self, fd, mode='r', *a, **kw):
+        if 'b' in mode and ('w' in mode or 'a' in mode or '+' in mode):
+            raw = _FRaw(self._inj, fd, mode.replace('b', ''), closefd=True)
+            return io.BufferedRandom(raw) if '+' in mode else io.BufferedWriter(raw)
+        return os.fdopen(fd, mode, *a, **kw)
+
+
+class Patched(object):
+    """Context: the compact cache code writes through the injector."""
+
+    def __init__(self, inj):
+        self.inj = inj
+
+    def __enter__(self):
+        import mapproxy.cache.compact as cc
+        import mapproxy.util.fs as fs
+        inj = self.inj
+
+        def traced_open(name, mode='r', *a, **kw):
+            if 'b' in mode and any(c in mode for c in 'wa+x'):
+                raw = _FRaw(inj, name, mode.replace('b', ''))
+                return io.BufferedRandom(raw) if '+' in mode else io.BufferedWriter(raw)
+            return io.open(name, mode, *a, **kw)
+        self.saved = ('open' in cc.__dict__, cc.__dict__.get('open'), fs.os)
+        cc.open = traced_open
+        fs.os = _FsOs(inj)
+        return inj
+
+    def __exit__(self, *a):
+        import mapproxy.cache.compact as cc
+        import mapproxy.util.fs as fs
+        had, val, fos = self.saved
+        if had:
+            cc.open = val
+        else:
+            del cc.open
+        fs.os = fos
+
+
+def restore(snap, cache_dir):
+    shutil.rmtree(cache_dir, ignore_errors=True)
+    shutil.copytree(snap, cache_dir)
+
+
+def loads_of(real, addrs):
+    return {a: real.load(a) for a in addrs}
+
+
+def run_fault_case(ctx, version, ops, label):
+    """History without faults, then (1) the last store of the history is repeated from the same state with a write
+    error at every raw write and in every mode, (2) the defragmentation (thresholds zero: every bundle is rewritten)
+    likewise.  Oracle: after a failed store the bundles are structurally valid and every address returns its
+    previous bytes or - for the tiles of the failed batch - the complete new ones; the cache keeps working; a failed
+    defragmentation changes no address and grows no file; neither does the next, undisturbed one."""
+    rng = ctx.rng
+    d = ctx.tmpdir('c19f')
+    cache_dir, snap = os.path.join(d, 'cache'), os.path.join(d, 'snap')
+    real = Real(version, cache_dir)
+    replay = {'format': 'v%d' % version, 'label': label,
+              'ops': [[o[0], [[list(a), list(b)] for a, b in o[1]]] if o[0] == 'S' else [o[0], list(o[1])] for o in ops]}
+    expect, touched = {}, []
+    *prefix, last = ops
+    for op in prefix:
+        if op[0] == 'S':
+            res = real.store(op[1])
+            for a, data in op[1]:
+                touched.append(tuple(a))
+                if len(data):
+                    expect[tuple(a)] = bytes(data)
+                else:
+                    expect.pop(tuple(a), None)
+        else:
+            res = real.remove(op[1])
+            touched.append(tuple(op[1]))
+            expect.pop(tuple(op[1]), None)
+        if res != ('ok', True):
+            ctx.problem('harness', 'fault case %s: prefix operation failed: %r' % (label, res), None)
+            return
+    os.makedirs(cache_dir, exist_ok=True)
+    shutil.copytree(cache_dir, snap)
+    batch = last[1]
+    addrs = sorted(set(touched) | set(tuple(a) for a, _ in batch))
+    new = {}
+    for a, data in batch:
+        new[tuple(a)] = bytes(data) if len(data) else None
+    inj = Injector()
+    nfaults = 0
+
+    def after_failed_store(when, rep):
+        got = loads_of(real, addrs)
+        for a in addrs:
+            old = ('data', expect[a]) if a in expect else ('missing',)
+            allowed = [old]
+            if a in new:
+                allowed.append(('data', new[a]) if new[a] else ('missing',))
+                allowed += [('data', bytes(dd)) if len(dd) else ('missing',) for aa, dd in batch if tuple(aa) == a]
+            if got[a] not in allowed:
+                ctx.fail('v%d,fault-wrong-bytes' % version,
+                         '%s: load_tile%r returned %s: neither the previous tile nor a complete tile of the failed batch' % (
+                             when, a, short(got[a])),
+                         dict(rep, when=when, address=list(a), got=short(got[a])))
+        check_files(ctx, real, rep, when, strict=False)
+        return got
+
+    # ---- (1) the store with a write error
+    with Patched(inj):
+        inj.arm(None, None)
+        real.store(batch)
+        n_store = inj.count
+    for mode in ('once', 'full', 'torn'):
+        for k in range(n_store):
+            restore(snap, cache_dir)
+            cut = rng.randrange(1, 9)
+            rep = dict(replay, fault={'operation': 'last store', 'raw_write': k, 'mode': mode, 'cut': cut})
+            with Patched(inj):
+                inj.arm(k, mode, cut)
+                res = real.store(batch)
+                inj.disarm()
+            nfaults += 1
+            ctx.count('store-fault=%s,%s' % (mode, 'raised' if res[0] == 'raised' else 'completed'))
+            got = after_failed_store('after the store that hit a write error', rep)
+            # the cache keeps working: a further store and a remove, without faults
+            a2 = rng.choice(addrs)
+            d2 = bytes([rng.randrange(256) for _ in range(rng.choice([1, 5, 40]))])
+            r2 = real.store([(a2, list(d2))])
+            a3 = rng.choice(addrs)
+            r3 = real.remove(a3)
+            if r2 != ('ok', True) or r3 != ('ok', True):
+                ctx.fail('v%d,fault-cache-unusable' % version, 'after a failed store: store -> %r, remove -> %r' % (r2, r3),
+                         dict(rep, then=[list(a2), list(a3)]))
+            want = dict(got)
+            want[a2] = ('data', d2)
+            want[a3] = ('missing',)
+            got2 = loads_of(real, addrs)
+            for a in addrs:
+                if got2[a] != want[a]:
+                    ctx.fail('v%d,fault-wrong-bytes' % version,
+                             'after a failed store and a further store/remove: load_tile%r returned %s' % (a, short(got2[a])),
+                             dict(rep, address=list(a), got=short(got2[a]), then=[list(a2), list(d2), list(a3)]))
+            check_files(ctx, real, rep, 'after a failed store and a further store/remove', strict=False)
+
+    # ---- (2) defragmentation with a write error
+    restore(snap, cache_dir)
+    real.store(batch)
+    for a in new:
+        if new[a]:
+            expect[a] = new[a]
+        else:
+            expect.pop(a, None)
+    shutil.rmtree(snap)
+    shutil.copytree(cache_dir, snap)
+    probes = sorted(set(rel(a) for a in addrs))
+    daddrs = sorted(set(addrs) | set((c + x, r + y, z) for (z, c, r) in bundle_files(cache_dir) for x, y in probes))
+    before = loads_of(real, daddrs)
+    with Patched(inj):
+        inj.arm(None, None)
+        real.defrag(0.0, 0)
+        n_defrag = inj.count
+    ks = list(range(n_defrag))
+    nk = ctx.n(5, 14)
+    if len(ks) > nk:
+        ks = sorted(rng.sample(ks, nk))
+    for mode in ('once', 'full'):
+        for k in ks:
+            restore(snap, cache_dir)
+            sizes0 = {(key, ext): os.path.getsize(base + ext) for key, base in bundle_files(cache_dir).items()
+                      for ext in ('.bundle', '.bundlx') if os.path.exists(base + ext)}
+            rep = dict(replay, fault={'operation': 'defrag_compact_cache(min_percent=0, min_bytes=0)', 'raw_write': k, 'mode': mode})
+            with Patched(inj):
+                inj.arm(k, mode)
+                res = real.defrag(0.0, 0)
+                inj.disarm()
+            nfaults += 1
+            ctx.count('defrag-fault=%s,%s' % (mode, 'raised' if res[0] == 'raised' else 'completed'))
+            got = loads_of(real, daddrs)
+            for a in daddrs:
+                if got[a] != before[a]:
+                    ctx.fail('v%d,fault-defrag-changed-tile' % version,
+                             'defragmentation hit a write error (%s): address %r: %s before, %s after' % (
+                                 res[0], a, short(before[a]), short(got[a])),
+                             dict(rep, address=list(a), before=short(before[a]), after=short(got[a])))
+            check_files(ctx, real, rep, 'after a defragmentation that hit a write error', strict=False)
+            for (key, ext), n0 in sizes0.items():
+                base = bundle_files(cache_dir).get(key)
+                if base and os.path.exists(base + ext) and os.path.getsize(base + ext) > n0:
+                    ctx.fail('v%d,fault-defrag-grew' % version, 'bundle %r%s grew from %d to %d bytes' % (
+                        key, ext, n0, os.path.getsize(base + ext)), dict(rep, bundle=list(key)))
+            # the next, undisturbed defragmentation
+            res2 = real.defrag(0.0, 0)
+            got2 = loads_of(real, daddrs)
+            badd = [a for a in daddrs if got2[a] != before[a]]
+            if res2[0] != 'ok' or badd:
+                a = badd[0] if badd else None
+                ctx.fail('v%d,defrag-after-failed-defrag' % version,
+                         'a defragmentation after one that hit a write error: %s' % (
+                             'raised %s' % res2[1] if res2[0] != 'ok' else
+                             'address %r: %s before, %s after' % (a, short(before[a]), short(got2[a]))),
+                         dict(rep, then='defrag_compact_cache(min_percent=0, min_bytes=0) without faults',
+                              address=None if a is None else list(a)))
+            check_files(ctx, real, rep, 'after a defragmentation following a failed one', strict=False,
+                        sig_invalid='v%d,defrag-after-failed-defrag' % version)
+    ctx.case(('fault', 'v%d' % version, repr(ops)), nontrivial=True,
+             sample={'format': 'v%d' % version, 'kind': 'write errors', 'raw_writes_of_store': n_store,
+                     'raw_writes_of_defrag': n_defrag, 'faults_injected': nfaults})
+    ctx.count('fault-cases')
+
+
+def gen_fault_history(ctx):
+    rng = ctx.rng
+    origins = [(rng.choice([0, 2]), 0, 0), (rng.choice([0, 2]), 128, 0)]
+    pool = [(0, 0), (127, 127), (5, 7), (6, 7), (12, 99)]
+
+    def coord(o=None):
+        z, c, r = o or rng.choice(origins)
+        x, y = rng.choice(pool)
+        return (c + x, r + y, z)
+    ops, live = [], []
+    for _ in range(rng.randrange(3, 7)):
+        if live and rng.random() < 0.2:
+            ops.append(('R', rng.choice(live)))
+        else:
+            b = [(coord(), gen_data(rng, False)) for _ in range(rng.choice([1, 1, 2]))]
+            ops.append(('S', b))
+            live.extend(a for a, _ in b)
+    # the store that will be hit: an overwrite of a live tile and a tile that was never stored, in one bundle
+    o = rng.choice(origins)
+    b = []
+    if live and rng.random() < 0.8:
+        a = rng.choice(live)
+        o = key_of(a)
+        b.append((a, gen_data(rng, False)))
+    b.append(((o[1] + rng.randrange(20, 100), o[2] + rng.randrange(20, 100), o[0]), gen_data(rng, False)))
+    if rng.random() < 0.4:
+        b.append(((o[1] + 3, o[2] + 3, o[0]), [rng.randrange(256) for _ in range(rng.choice([9000, 20000]))]))
+    ops.append(('S', b))
+    return ops
+
+
+# ------------------------------------------------------------------------------------- two writers, new bundle
+
+def run_race_case(ctx, version, variant, label):
+    """Two writers (threads, each with its own cache object, real code) store into a bundle that does not exist
+    yet.  W2 is stopped inside the creation of the bundle files right after it saw that they do not exist
+    (ensure_directory is the first call after the os.path.exists test); W1 creates the bundle, takes the lock and
+    appends its record; variant 'mid': W1 is stopped before it writes the index entry, W2 finishes the creation
+    and queues for the lock, W1 finishes, W2 stores; variant 'late': W1 finishes its store completely before W2
+    goes on.  Whatever becomes of W1's tile (the lost update of a re-created bundle exists in the unchanged code):
+    the bundle must be structurally valid and no address may return bytes that were not stored for it."""
+    import mapproxy.cache.compact as cc
+    d = ctx.tmpdir('c19r')
+    cache_dir = os.path.join(d, 'cache')
+    real = Real(version, cache_dir)
+    A, B = (5, 7, 3), (6, 7, 3)
+    da, db = bytes([65]) * 3000, bytes([66]) * 2000
+    WAIT = 10
+    ev = {n: threading.Event() for n in ('w2_checked', 'w1_appended', 'w2_init_done')}
+    who = {}
+    once = set()
+    timeouts, errors = [], []
+    orig_ensure = cc.ensure_directory
+    upd_cls, upd_name = (cc.BundleV2, '_update_tile_offset') if version == 2 else (cc.BundleIndexV1, 'update_tile_offset')
+    orig_upd = getattr(upd_cls, upd_name)
+    init_cls = cc.BundleV2 if version == 2 else cc.BundleDataV1
+    init_name = '_init_index' if version == 2 else '_init_bundle'
+    orig_init = getattr(init_cls, init_name)
+
+    def ensure_directory(filename, *a, **kw):
+        if threading.current_thread() is who.get('W2') and 'ensure' not in once and filename.endswith('.bundle'):
+            once.add('ensure')
+            ev['w2_checked'].set()
+            if not ev['w1_appended'].wait(WAIT):
+                timeouts.append('W2 waiting for W1')
+        return orig_ensure(filename, *a, **kw)
+
+    def upd(self, *a, **kw):
+        if variant == 'mid' and threading.current_thread() is who.get('W1') and 'upd' not in once:
+            once.add('upd')
+            ev['w1_appended'].set()
+            if not ev['w2_init_done'].wait(WAIT):
+                timeouts.append('W1 waiting for W2')
+        return orig_upd(self, *a, **kw)
+
+    def init(self, *a, **kw):
+        first = threading.current_thread() is who.get('W2') and 'init' not in once
+        if first:
+            once.add('init')
+        try:
+            return orig_init(self, *a, **kw)
+        finally:
+            if first:
+                ev['w2_init_done'].set()
+
+    def reader(coord, data):
+        try:
+            Real(version, cache_dir).load(coord)
+        except Exception as ex:   # noqa
+            errors.append('%s: %r' % (threading.current_thread().name, ex))
+
+    def writer(coord, data):
+        try:
+            r = Real(version, cache_dir).store([(coord, list(data))])
+            if r != ('ok', True):
+                errors.append('%s: %r' % (threading.current_thread().name, r))
+        except Exception as ex:   # noqa
+            errors.append('%s: %r' % (threading.current_thread().name, ex))
+    cc.ensure_directory = ensure_directory
+    setattr(upd_cls, upd_name, upd)
+    setattr(init_cls, init_name, init)
+    try:
+        if variant == 'reader':
+            # v1: remove_tile on a new bundle creates the index only; the data file is created by whoever
+            # constructs BundleDataV1 next - a reader does that outside the bundle lock
+            real.remove(A)
+        w2 = threading.Thread(target=reader if variant == 'reader' else writer, args=(B, db), name='W2', daemon=True)
+        w1 = threading.Thread(target=writer, args=(A, da), name='W1', daemon=True)
+        who['W1'], who['W2'] = w1, w2
+        w2.start()
+        t_end = WAIT * 10
+        while t_end > 0 and not ev['w2_checked'].wait(0.1) and w2.is_alive():
+            t_end -= 1
+        if not ev['w2_checked'].is_set():
+            if variant == 'reader' and not w2.is_alive():
+                # the reader did not have to create anything: the window does not exist (repaired code)
+                ctx.count('race=reader,window-closed')
+            else:
+                timeouts.append('main waiting for W2')
+        w1.start()
+        if variant in ('late', 'reader'):
+            w1.join(3 * WAIT)
+            ev['w1_appended'].set()
+        w1.join(3 * WAIT)
+        w2.join(3 * WAIT)
+    finally:
+        for e in ev.values():
+            e.set()
+        cc.ensure_directory = orig_ensure
+        setattr(upd_cls, upd_name, orig_upd)
+        setattr(init_cls, init_name, orig_init)
+    replay = {'format': 'v%d' % version, 'label': label, 'schedule': variant, 'writers': {'W1': list(A), 'W2': list(B)}}
+    if timeouts or w1.is_alive() or w2.is_alive():
+        ctx.problem('harness', 'two-writer schedule %s (v%d) did not run as planned: %r' % (variant, version, timeouts), None)
+        return
+    ctx.count('race=%s,v%d' % (variant, version))
+    sig = 'v%d,race-%s' % (version, 'reader-creates-data-file' if variant == 'reader' else 'wrong-bytes')
+    check_files(ctx, real, replay, 'after two writers created a bundle (%s)' % variant, strict=False,
+                sig_invalid=sig if variant == 'reader' else None)      # its own class: see known_findings.d/C19.json
+    for a, own in ((A, da), (B, db)):
+        got = real.load(a)
+        if got not in (('missing',), ('data', own)):
+            ctx.fail(sig,
+                     'two writers on a new bundle (%s): load_tile%r returned %s, which was never stored for it' % (
+                         variant, a, short(got)), dict(replay, address=list(a), got=short(got)))
+    got = real.load((7, 7, 3))
+    if got != ('missing',):
+        ctx.fail(sig, 'two writers on a new bundle (%s): never stored address returns %s' % (
+            variant, short(got)), dict(replay, address=[7, 7, 3], got=short(got)))
+    # defragmentation afterwards must not change what the addresses return
+    before = loads_of(real, [A, B, (7, 7, 3)])
+    res = real.defrag(0.0, 0)
+    after = loads_of(real, [A, B, (7, 7, 3)])
+    if res[0] != 'ok' or before != after:
+        ctx.fail(sig if variant == 'reader' else 'v%d,race-defrag-changed-tile' % version,
+                 'defragmentation after two writers created a bundle (%s): %r -> %r (%s)' % (
+                     variant, {k: short(v) for k, v in before.items()}, {k: short(v) for k, v in after.items()}, res[0]),
+                 dict(replay))
+    check_files(ctx, real, replay, 'after two writers and a defragmentation (%s)' % variant, strict=False,
+                sig_invalid=sig if variant == 'reader' else None)
+    ctx.case(('race', version, variant), nontrivial=True, sample={'format': 'v%d' % version, 'kind': 'two writers', 'schedule': variant,
+                                                                 'errors': errors})
 
 
 # ------------------------------------------------------------------------------------- generators
@@ -790,6 +1231,20 @@ def run(ctx):
     for i in range(ctx.n(4, 30)):
         for version in (1, 2):
             add(version, gen_sparse_history(ctx), None, 'sparse-random-%d' % i)
+
+    # write errors at every raw write of a store and of a defragmentation; two writers creating one bundle
+    for i in range(ctx.n(2, 12)):
+        for version in (1, 2):
+            try:
+                run_fault_case(ctx, version, gen_fault_history(ctx), 'fault-%d' % i)
+            except Exception as ex:   # noqa
+                ctx.problem('harness', 'fault case %d (v%d) could not be run: %r' % (i, version, ex), None)
+    for version, variant in ((2, 'mid'), (2, 'late'), (1, 'reader')):
+        if True:
+            try:
+                run_race_case(ctx, version, variant, 'race-%s' % variant)
+            except Exception as ex:   # noqa
+                ctx.problem('harness', 'race case %s (v%d) could not be run: %r' % (variant, version, ex), None)
 
     for version in (1, 2):
         ctx.corr_check('v%d_sparse_history_defrag' % version, 'Bytes Gen_compact Gen_compact_fmt Bundle',
